@@ -38,6 +38,10 @@
 (*                 (Growth outside samples - member down, leave, join      *)
 (*                 below min_size, jitter - is not load-driven: unbounded.)*)
 (*  C06.grow       sample with load >= maxL, iB > 0, sB < maxS: grows.     *)
+(*                 Also: a request that finds the aperture empty (active = 0:   *)
+(*                 "essentially infinite load" in the code's own words), or a  *)
+(*                 completion sampled at active = 0, while idle members remain *)
+(*                 and maxS > 0: the active set grows (a floor under demand).   *)
 (*  C06.shrink     sample with load <= minL, hB > minS and no open pending *)
 (*                 (none in flight, none completed since the last          *)
 (*                 quiescent point): shrinks by exactly one.               *)
@@ -134,10 +138,21 @@ QuietCheck(s, t, a, i, proj, act, idl) ==
 QuietUpd(s, t, a, i, proj, act, idl) == [Gauges(s, t, a, i) EXCEPT !.settling = {}]
 
 \* ---------------------------------------------------------------- samples
+\* load at an empty aperture is infinite: >= maxL whatever the band
+EmptyGrowOk(s, a) == (s.gA = 0 /\ s.gI > 0 /\ acfg.maxS > 0) => a > 0
+
+\* a request answered at once with NoMembersError (no member chosen, no sample published)
+NoMemberCheck(s, t, a, i) ==
+  IF ClockCheck(s, t) # "ok" THEN ClockCheck(s, t)
+  ELSE IF ~EmptyGrowOk(s, a) THEN "C06.grow"
+  ELSE FloorCheck(s, a)
+NoMemberUpd(s, t, a, i) == Gauges(s, t, a, i)
+
 \* a get/put for which no load was published (active size 0): the average moves unobserved
 BlindCheck(s, k, t, a, i) ==
   IF ClockCheck(s, t) # "ok" THEN ClockCheck(s, t)
   ELSE IF s.tot + k < 0 THEN "harness.negativeTotal"
+  ELSE IF ~EmptyGrowOk(s, a) THEN "C06.grow"
   ELSE FloorCheck(s, a)
 BlindUpd(s, k, t, a, i) ==
   [Unsteady(Gauges(s, t, a, i), t) EXCEPT !.tot = s.tot + k, !.avgKnown = FALSE, !.sampT = t]
